@@ -261,8 +261,10 @@ func (c *Conn) unsupported(what string) error {
 	return &Unmodelled{"driver call " + what}
 }
 
-func (c *Conn) Contributors() []string                       { return nil }
-func (c *Conn) ServerVersion() (*chdrv.ServerVersion, error) { return nil, c.unsupported("ServerVersion") }
+func (c *Conn) Contributors() []string { return nil }
+func (c *Conn) ServerVersion() (*chdrv.ServerVersion, error) {
+	return nil, c.unsupported("ServerVersion")
+}
 func (c *Conn) Select(ctx context.Context, dest any, q string, args ...any) error {
 	return c.unsupported("Select")
 }
@@ -286,9 +288,9 @@ func (c *Conn) Close() error       { return nil }
 
 type row struct{ err error }
 
-func (r *row) Err() error              { return r.err }
-func (r *row) Scan(dest ...any) error  { return r.err }
-func (r *row) ScanStruct(any) error    { return r.err }
+func (r *row) Err() error             { return r.err }
+func (r *row) Scan(dest ...any) error { return r.err }
+func (r *row) ScanStruct(any) error   { return r.err }
 
 type rows struct {
 	vals []any
